@@ -21,32 +21,33 @@ import (
 const repoModule = "github.com/ah-naf/borno"
 
 type Engine struct {
-	repoDir   string // source of truth (/repo or VERIF_REPO)
-	snapDir   string // snapshot actually loaded
-	scratch   string
-	fset      *token.FileSet
-	pkgs      []*packages.Package
-	prog      *ssa.Program
-	ssaPkgs   []*ssa.Package
-	sorts     *Sorts
-	funcs     map[string]*ssa.Function // short name -> function
-	fnames    map[*ssa.Function]string
-	contracts map[string]*Contract
-	ifaceCons map[string]*Contract // interface method contracts: "interpreter.Callable.Call"
-	modsets   map[*ssa.Function]map[string]bool
-	strConsts map[string]string // literal -> SMT symbol
-	strOrder  []string
-	specs     *SpecTable
-	files     map[string]*ast.File // filename -> syntax
-	srcCache  map[string][]byte
-	compSorts map[string]Sort // every heap component ever referenced
-	dynTypes  []types.Type    // concrete types that flow into interfaces
-	tier      string
-	verbose   bool
-	rules     map[string]*Rule
-	cellinvs  []*CellInv
-	tables    []*TableDecl
-	lemmas    []*Lemma
+	repoDir     string // source of truth (/repo or VERIF_REPO)
+	snapDir     string // snapshot actually loaded
+	scratch     string
+	fset        *token.FileSet
+	pkgs        []*packages.Package
+	prog        *ssa.Program
+	ssaPkgs     []*ssa.Package
+	sorts       *Sorts
+	funcs       map[string]*ssa.Function // short name -> function
+	fnames      map[*ssa.Function]string
+	contracts   map[string]*Contract
+	ifaceCons   map[string]*Contract // interface method contracts: "interpreter.Callable.Call"
+	modsets     map[*ssa.Function]map[string]bool
+	strConsts   map[string]string // literal -> SMT symbol
+	strOrder    []string
+	specs       *SpecTable
+	files       map[string]*ast.File // filename -> syntax
+	srcCache    map[string][]byte
+	compSorts   map[string]Sort // every heap component ever referenced
+	dynTypes    []types.Type    // concrete types that flow into interfaces
+	tier        string
+	verbose     bool
+	rules       map[string]*Rule
+	cellinvs    []*CellInv
+	tables      []*TableDecl
+	lemmas      []*Lemma
+	typeinvs    []*CellInv
 	headerCache map[string]string
 	compOwner   map[string]string
 	notCtorOnly map[string]bool
